@@ -152,3 +152,32 @@ _upd("C16", level="other",
      level_text=_P + "update_units_from_index_curve assigns only the unit of STRT/STOP/STEP and of the first curve; update_start_stop_step only the value of STRT/STOP/STEP; the refresh block calls them and nothing else and leaves all values alone when the index is unchanged and STOP agrees; "
                 "the header loops assign only the value of ~Well/~Parameter items (normalisation); KeyError exactly when STRT/STOP/STEP is missing." + _B + "byte-identical second write, truthfulness of STRT/STOP/STEP in the output, VERS/WRAP handling.")
 _upd("C19", level="other")
+
+# ---- later cores (DESIGN 7.2): K4, R0-R3/R6, purity of configure_metadata_patterns, title-dispatch lemma, unit-table lemma
+_upd("C04", level="other",
+     technique="purity/shape contract on the real configure_metadata_patterns and a title-dispatch lemma (the real SectionParser.__init__ executed on a symbolic title) discharged by z3; the capture semantics of the regular expressions stay bounded: "
+               "exhaustive small-alphabet enumeration of formatted lines through the real read_header_line, hypothesis on the full classes",
+     level_text=_P + "configure_metadata_patterns updates no object outside the call (no cache, no module-level state) and yields two patterns - the time-colon one first - exactly in ~Parameter and one elsewhere; "
+                "SectionParser picks the curves/params/metadata parser from the first letter after the tilde of the title, case-insensitively, for every title." + _B +
+                "which substring a backtracking regex binds to a group is not expressible in z3/cvc5 string theories: 'parsing inverts formatting' is checked on the real function over 2.8 million enumerated lines (quick).")
+_upd("C05",
+     technique="contracts on the real find_sections_in_file, determine_section_type, parse_header_items_section and on the whole section loop of LASFile.read (blocks R1 steering, R2 routing, R3 ~Other lines used through their contracts) "
+               "discharged by z3/cvc5; title-dispatch lemma; generated section permutations as bounded stand-in for the data loops",
+     level_text=_P + "the section table is exactly the title lines, strictly increasing, with no title line inside a body; the section loop of LASFile.read is left only by exhaustion and dispatches every table entry by its kind: "
+                "every header-item section is parsed by parse_header_items_section positioned on its own title with its own line range and stored under the key its title demands, every free-text section is read from its own lines, "
+                "every data section is remembered in file order; parse_header_items_section builds one item per accepted line of that body, in order, each a function of its own line only, and consumes no line beyond the body; "
+                "VERS/WRAP/DLM are taken only from ~V and NULL only from ~W." + _B + "the data loops' interplay and las3 sections: all section orders, title spellings, steering items, last-line kinds.")
+_upd("C06",
+     technique="contracts on the real cell formatter (NaN is written as the current NULL value), on the steering block R1 of LASFile.read (NULL is taken from ~Well whenever it is there, whatever its value) and symbolic execution of the real get_substitutions "
+               "on the real policy tables; generator-computed NaN masks through the real reader as bounded stand-in for the numpy comparison")
+_upd("C09",
+     technique="contracts K1, K3, K4 (inspect_data_section: the reported column count is the token count of every sampled data line of the stripped, substituted text), K5a, R3, R5 and the substitution-table lemma discharged by z3/cvc5; metamorphic runs as bounded stand-in")
+_upd("C10",
+     technique="contracts on the real defaults.get_default_items and LASFile.__init__ (every section and item freshly allocated), on reader.open_file for a text argument (a multi-line string reaches the reader as StringIO(that string)) and the purity "
+               "contract of configure_metadata_patterns discharged by z3; channel x encoding matrix and purity scenarios as bounded stand-in")
+_upd("C12",
+     technique="symbolic execution of the real get_section_order_function (writer) and SectionParser.__init__ + the order lookup of SectionParser.metadata (reader) on the real ORDER_DEFINITIONS table with a symbolic mnemonic; "
+               "substitution-table lemma (wrap on/off changes the engine that re-reads the file); configuration pairs as bounded stand-in")
+_upd("C19",
+     technique="contract on the real parse_header_items_section (exception-freedom outside the guarded regex call, per-line independence), item constructors, steering block R1 and the purity contract of configure_metadata_patterns "
+               "(a junk line cannot influence how a later line is parsed through hidden state) discharged by z3/cvc5; junk-line injection as bounded stand-in")
